@@ -225,12 +225,7 @@ def run_history(e, hist, check_inverse=True, deep=True):
             if rational:
                 ok = rg.ex(got) == want
             else:
-                degs = {len(sg) - 1 for c in reg.curves() for sg in c.segs}
-                nominal = all(p * (a + b + 2) - 1 <= (4 + a + b + p) - 1 for p in degs)
-                if nominal:
-                    ok = abs(rg.ex(got) - want) <= F(1, 10**8) * max(abs(want), scale ** (a + b + 2) * F(1, 10**4))
-                else:  # the library's quadrature is not exact there (see C04)
-                    ok = abs(rg.ex(got) - want) <= F(2, 1000) * scale ** (a + b + 2)
+                ok = abs(rg.ex(got) - want) <= (F(1, 10**8) if a + b == 0 else F(1, 10**6)) * max(abs(want), scale ** (a + b + 2) * F(1, 10**4))
             if not ok:
                 fails.append(("moment", "moment(%d,%d) = %r, reference %r" % (a, b, got, float(want))))
                 break
